@@ -70,7 +70,7 @@ def owners_of(reject):
         for a in model.get("app", []):
             out |= {"dup": {"C03"}, "emptyUnique": {"C03"}, "fkMissing": {"C04"}, "refExists": {"C04"}, "fkNull": {"C04"}, "system": {"C16"},
                     "storage": {"C07", "C03"}, "veto": {"C07"}, "caller": {"C07"}}.get(a, {"core"})
-    elif logged["res"] == "fail" and logged.get("cls", "").startswith("lost:"):
+    elif reject.get("lost"):
         out.add("C07")
     elif not differs and reject.get("events") != "differ":
         out.add("core")
@@ -158,6 +158,7 @@ def validate(ctx, bindir, prop, fam, tokens, traces, txs, seed, tag="", sys=True
             # no action of the specification is enabled for this line with the logged arguments (a precondition of the driver protocol)
             raise Inconclusive("trace %s: line %d (%s) is not a call the specification knows in that state" % (name, v["at"], json.dumps(line.get("a"))[:300]))
         v["via"] = (line.get("a") or {}).get("via")
+        v["lost"] = bool(line.get("lost"))
         own = owners_of(v)
         what = "[%s] line %d: %s %s -- implementation: %s %s ret=%s; specification: %s %s ret=%s; state differs in %s%s" % (
             fam, v["at"], v["op"], json.dumps(line.get("a"))[:260], v["logged"].get("res"), v["logged"].get("cls", ""), v["logged"].get("ret", ""),
